@@ -149,6 +149,9 @@ def check(ctx: Ctx) -> None:
                               'equality compares attribute %r (%s) but %s does not serialise it: a JSON round trip '
                               'of an object with a non-default %s compares unequal'
                               % (a, compared[a], w.qualname, a), eq.path, eq.lineno, operand=a)
+    from ..dsf import auto_memo_check
+    ctx.rule('C17.e', 'no auto-discovered lazily filled cache of the classes in the anchored modules can be stale at the exit of a public method (dependencies = what the fill expression reads, incl. mutating calls on held sub-objects)', floor=3)
+    auto_memo_check(ctx, 'C17.e', [RES, PAR, SER])
     _check_json(ctx)
     _check_dispatch(ctx)
 
